@@ -32,10 +32,14 @@ func dtlcpScriptHist(s scen) (string, string) {
 	ci1, ob1, offer := dtlcpScriptConn(s, dServer(s.pol, s.suite, st.Root.Pool, pki.Now, cache), nil, st.Root.Pool, pki.Now)
 	t1 := ci1.tokens("1")
 	roots2, now2 := cfg2Of(s.cfg2)
-	ci2, ob2, _ := dtlcpScriptConn(s, dServer(s.pol2, s.suite, roots2, now2, cache), offer, roots2, now2)
+	// the second connection: the same script on the same suite, or (phase decl) another script on
+	// another suite, the session's suite no longer offered by the client / supported by the server
+	s2, srv2 := s.second()
+	scfg2 := dServer(s.pol2, s2.suite, roots2, now2, cache)
+	scfg2.CipherSuites = srv2
+	ci2, ob2, _ := dtlcpScriptConn(s2, scfg2, offer, roots2, now2)
 	t2 := ci2.tokens("2")
-	_, nowToks := judgeCerts(ci1.ders, roots2, now2, ci1.ecdhe)
-	return t1 + t2 + fmt.Sprintf(" 2.offer=%s now0=%s now1=%s", offerTok(ci2.cf), nowToks[0], nowToks[1]), ob1.tokens("1") + ob2.tokens("2")
+	return t1 + t2 + histTail(ci1, ci2, s.suite, srv2, roots2, now2), ob1.tokens("1") + ob2.tokens("2")
 }
 
 func dtlcpScriptConn(s scen, scfg *dtlcp.Config, offer *sessOffer, roots *smx509.CertPool, now time.Time) (*connInfo, connObs, *sessOffer) {
@@ -66,7 +70,7 @@ func dtlcpScriptConn(s scen, scfg *dtlcp.Config, offer *sessOffer, roots *smx509
 	pl := scriptPlanOf(s.cli)
 	ccfg := &dtlcp.Config{
 		Certificates: []dtlcp.Certificate{pair.DCert(pl.sig), pair.DCert(pl.enc)},
-		CipherSuites: []uint16{suiteID(s.suite)}, Time: pki.NowFn, RootCAs: st.Root.Pool,
+		CipherSuites: s.offered(), Time: pki.NowFn, RootCAs: st.Root.Pool,
 	}
 	sc := dtlcp.NewVerifScript("client", ce, se.LocalAddr(), ccfg)
 	if offer != nil {
@@ -176,6 +180,7 @@ func dtlcpScriptConn(s scen, scfg *dtlcp.Config, offer *sessOffer, roots *smx509
 		cvBits: cvBits, finOK: finOK, roots: roots, now: now}
 	cs := srv.ConnectionState()
 	ob := connObs{err: serr, resumed: cs.DidResume, peers: len(cs.PeerCertificates), chains: len(cs.VerifiedChains),
+		pleaf: leafOf(cs.PeerCertificates), vleaf: chainLeafOf(cs.VerifiedChains),
 		req: reqTok(ci.sf), alert: alertTok(ci.sf), panicked: panicked}
 	go func() { srv.Close() }()
 	if !sc.PeerFinishedOK {
